@@ -11,6 +11,10 @@
 //! D = depth of the exhaustive next/next_back DFS, H = cap of the canonical heavy states,
 //! scripts = comma separated op strings over n b l p (random interleavings).
 //! The OCaml runner recomputes every label with the extracted model of the code and with the specification.
+//! Two observations are judged on the implementation alone: `l,c!POSl2,c2` in the line_col field of V<k> (Pair::line_col
+//! differs from as_span().start_pos().line_col()) and the `.alt` label (a pair reached by flatten / rev / peek / find_tagged
+//! shows other rule/tag/span/as_str/line_col than the same pair reached by next + into_inner); both sides expect none.
+//! Mode `neighbors CASE COUNT SEED` generates cases around one case (the driver's search after a correspondence break).
 use pest::iterators::{FlatPairs, Pair, Pairs, PairsBuilder, Tokens};
 use pest::{ParseResult, ParserState, RuleType, Token};
 use pvharness::gram::{pest_grammar, GRule, Ty, GE};
@@ -153,10 +157,18 @@ fn exec<'i>(p: &Pg, s: St<'i>) -> ParseResult<St<'i>> {
         Pg::Look(b, body) => s.lookahead(*b, |s| exec(body, s)),
     }
 }
-const ALPHA: [&str; 6] = ["x", "y", "\u{e9}", "\u{4f60}", "\n", "\""];
+/// input alphabet of the builder / closure-tree runs: one-, two-, three- and four-byte characters and every kind of line
+/// break (`\n`, `\r\n`, a lone `\r`)
+const ALPHA: [&str; 9] = ["x", "y", "\u{e9}", "\u{4f60}", "\n", "\"", "\r\n", "\r", "\u{1F388}"];
+/// profile 0 = x y U+00E9 only, 1 = the whole alphabet, 2 = line-heavy (short lines, all line-break kinds, multi-byte
+/// characters in front of them)
+fn gen_text(rng: &mut Rng, n: u64, profile: u64) -> String {
+    let ws: [u64; 9] = match profile { 0 => [1, 1, 1, 0, 0, 0, 0, 0, 0], 1 => [2, 2, 2, 2, 2, 2, 2, 2, 2], _ => [3, 2, 2, 1, 3, 0, 4, 2, 1] };
+    (0..n).map(|_| ALPHA[rng.weighted(&ws)]).collect()
+}
 fn gen_pg(rng: &mut Rng, d: usize) -> Pg {
     let leaf = d == 0 || rng.chance(1, 7);
-    if leaf { return if rng.chance(1, 4) { Pg::Any } else { Pg::M(ALPHA[rng.below(3) as usize].to_string()) }; }
+    if leaf { return if rng.chance(1, 4) { Pg::Any } else { Pg::M(ALPHA[rng.weighted(&[12, 12, 10, 1, 2, 0, 2, 1, 0])].to_string()) }; }
     match rng.weighted(&[9, 4, 3, 2, 4, 3, 1]) {
         0 => Pg::Rl(rng.below(3) as usize, Box::new(gen_pg(rng, d - 1))),
         1 => Pg::Seq((0..rng.range(2, 3)).map(|_| gen_pg(rng, d - 1)).collect()),
@@ -179,6 +191,8 @@ struct Ctx<'i, 'c, Rt: RuleType> {
     h: usize,
     scripts: Vec<String>,
     tagnames: [&'static str; 3],
+    /// as_rule,tag|span|as_str|line_col of pre[k], as seen on the pair reached by iteration + into_inner
+    lv: Vec<String>,
     out: Vec<(String, String)>,
 }
 
@@ -206,13 +220,49 @@ impl<'i, 'c, Rt: RuleType> Ctx<'i, 'c, Rt> {
         let head = ps(catch(|| format!("{},{}", rid(&p.as_rule()), tagid(p.as_node_tag()))));
         let span = ps(catch(|| { let s = p.as_span(); format!("{},{}", s.start(), s.end()) }));
         let st = ps(catch(|| p.as_str().to_string()));
-        let lc = ps(catch(|| { let (l, c) = p.line_col(); format!("{},{}", l, c) }));
+        // line_col is served from the shared LineIndex; the same pair's start Position computes it from the text: the two
+        // must agree (an oracle on the implementation alone), and both are compared with the specification's count
+        let lc = ps(catch(|| { let (l, c) = p.line_col(); let (l2, c2) = p.as_span().start_pos().line_col();
+                               if (l, c) == (l2, c2) { format!("{},{}", l, c) } else { format!("{},{}!POS{},{}", l, c, l2, c2) } }));
         let d0 = ps(catch(|| format!("{}", p)));
         let d1 = ps(catch(|| format!("{:#}", p)));
         let d2 = ps(catch(|| format!("{:?}", p)));
         let js = ps(catch(|| p.to_json()));
         let tk = ps(catch(|| p.clone().tokens().map(|t| self.tok(&t)).collect::<Vec<_>>().join(" ")));
         self.emit(format!("V{}", k), format!("{}|{}|{}|{}|{}|{}|{}|{}|{}", head, span, st, lc, d0, d1, d2, js, tk));
+    }
+
+    fn light(&self, p: &Pair<'i, Rt>) -> String {
+        let rid = self.rid;
+        let head = ps(catch(|| format!("{},{}", rid(&p.as_rule()), tagid(p.as_node_tag()))));
+        let span = ps(catch(|| { let s = p.as_span(); format!("{},{}", s.start(), s.end()) }));
+        let st = ps(catch(|| p.as_str().to_string()));
+        let lc = ps(catch(|| { let (l, c) = p.line_col(); format!("{},{}", l, c) }));
+        format!("{}|{}|{}|{}", head, span, st, lc)
+    }
+    /// The same pair reached on another way (flatten, backward iteration, peek, find_tagged, ...) must show the same
+    /// rule/tag/span/as_str/line_col as when it is reached by next() + into_inner(): returns the ways and pairs for which
+    /// it does not ("" when all agree).  A way that panics is skipped here (the DFS labels report panics).
+    fn alt_paths(&self, p: &Pairs<'i, Rt>) -> String {
+        let mut bad: Vec<String> = vec![];
+        let mut chk = |path: &str, q: &Pair<'i, Rt>| {
+            match self.pre.iter().position(|x| x == q) {
+                None => bad.push(format!("{}:?", path)),
+                Some(k) => { let l = self.light(q); if l != self.lv[k] { bad.push(format!("{}:{}:{}", path, k, l)); } }
+            }
+        };
+        const CAP: usize = 20_000;
+        if let Ok(v) = catch(|| p.clone().flatten().take(CAP).collect::<Vec<_>>()) { for q in &v { chk("f", q); } }
+        if let Ok(v) = catch(|| p.clone().flatten().rev().take(CAP).collect::<Vec<_>>()) { for q in &v { chk("fb", q); } }
+        if let Ok(v) = catch(|| p.clone().rev().take(CAP).collect::<Vec<_>>()) { for q in &v { chk("b", q); } }
+        if let Ok(Some(q)) = catch(|| p.peek()) { chk("p", &q); }
+        if let Ok(Some(q)) = catch(|| p.clone().flatten().next_back()) { chk("fl", &q); }
+        for tg in self.tagnames.iter() {
+            if let Ok(v) = catch(|| p.clone().find_tagged(tg).take(CAP).collect::<Vec<_>>()) { for q in &v { chk("t", q); } }
+            if let Ok(Some(q)) = catch(|| p.find_first_tagged(tg)) { chk("t1", &q); }
+        }
+        bad.truncate(8);
+        bad.join(" ")
     }
 
     fn dfs_pairs(&self, st: &Pairs<'i, Rt>, d: usize, o: &mut String) {
@@ -360,6 +410,8 @@ impl<'i, 'c, Rt: RuleType> Ctx<'i, 'c, Rt> {
             let first = self.item(&catch(|| p.find_first_tagged(tg)));
             self.emit(format!("{}.tag{}", lab, ti), format!("{}|{}", all, first));
         }
+        let alt = self.alt_paths(&p);
+        self.emit(format!("{}.alt", lab), alt);
         if with_scripts { for (n, sc) in self.scripts.clone().iter().enumerate() { let v = self.script_pairs(&p, sc); self.emit(format!("{}.sp{}", lab, n), v); } }
     }
 }
@@ -400,9 +452,10 @@ fn observe_t<'i, Rt: RuleType>(root: Pairs<'i, Rt>, input: &'i str, rid: &dyn Fn
     let mut pre = vec![];
     let mut budget = 10_000usize;
     if catch(|| preorder(root.clone(), &mut pre, &mut budget, 0)).is_err() { return format!("WF={};PRE=PANIC;", wf); }
-    let mut cx = Ctx { input, pre, rid, d, h, scripts: scripts.to_vec(), tagnames, out: vec![] };
+    let mut cx = Ctx { input, pre, rid, d, h, scripts: scripts.to_vec(), tagnames, lv: vec![], out: vec![] };
     let _ = cx.input;
     let n = cx.pre.len();
+    cx.lv = (0..n).map(|k| cx.light(&cx.pre[k])).collect();
     cx.emit("WF".into(), wf.to_string());
     cx.emit("N".into(), n.to_string());
     for k in 0..n { cx.pair_views(k); }
@@ -434,13 +487,18 @@ fn raw_tokens<'i, Rt: RuleType>(root: &Pairs<'i, Rt>, rid: &dyn Fn(&Rt) -> usize
     o.join(",")
 }
 
-const GRAMMARS: [&str; 5] = [
+const GRAMMARS: [&str; 6] = [
     "a = { \"x\" ~ b* ~ c? } b = { \"y\" | c } c = { \"\u{e9}\" }",
     "a = _{ \"x\"? }",
     "a = { b ~ (\"\\n\" ~ b)* } b = { c+ } c = { \"x\" | \"y\" | \"\u{4f60}\" }",
     "a = { (b | c)* ~ EOI } b = { \"x\" ~ a2? } a2 = { \"(\" ~ b* ~ \")\" } c = @{ \"y\"+ }",
     "a = { &b ~ c ~ !c } b = { \"x\" ~ \"y\"? } c = { \"x\" ~ d? } d = { \"y\" }",
+    // lines of words separated by every kind of line break; empty lines give pairs with empty spans at a line start
+    "a = { b ~ (nl ~ b)* } b = { c* } c = { \"x\" | \"\u{e9}\" } nl = _{ \"\\r\\n\" | \"\\n\" | \"\\r\" }",
 ];
+/// input alphabet per grammar (all inputs up to the length bound K, +1 for the alphabets of four symbols)
+const VM_ALPHA_STD: [&str; 7] = ["x", "y", "\u{e9}", "\u{4f60}", "\n", "(", ")"];
+const VM_ALPHA_LINES: [&str; 4] = ["x", "\u{e9}", "\n", "\r"];
 
 struct Out<'w> { w: BufWriter<io::StdoutLock<'w>>, n: u64, nontriv: u64, seen: HashSet<String> }
 impl<'w> Out<'w> {
@@ -532,7 +590,13 @@ fn gen_c04_expr(r: &mut Rng, d: u32, i: usize, n: usize) -> GE {
         _ => { let a = id(r); let l = lit(r); Cho(bx(Seq(bx(Opt(bx(a.clone()))), bx(l))), bx(a)) }
     }
 }
-fn gen_c04_grammar(r: &mut Rng) -> Vec<GRule> {
+const SEPS: [&str; 4] = [" ", "\r\n", "\n", "\r"];
+/// the grammar and the two separators its inputs are made of besides x and y (a space and one line break kind, or two
+/// line break kinds; WHITESPACE then accepts both)
+fn gen_c04_grammar(r: &mut Rng) -> (Vec<GRule>, [&'static str; 2]) {
+    let lines = r.chance(1, 3);
+    let seps: [&'static str; 2] = if lines { let a = r.below(4) as usize; let b = (a + 1 + r.below(3) as usize) % 4; [SEPS[a], SEPS[b]] } else { [" ", " "] };
+    let ws = || if lines { GE::Cho(Box::new(GE::Str(seps[0].into())), Box::new(GE::Str(seps[1].into()))) } else { GE::Str(" ".into()) };
     let n = 3 + r.below(3) as usize;
     let tys = [Ty::Normal, Ty::Silent, Ty::Atomic, Ty::Compound, Ty::NonAtomic];
     let profile = r.below(3);
@@ -549,14 +613,14 @@ fn gen_c04_grammar(r: &mut Rng) -> Vec<GRule> {
     let last = n - 1;
     rules[last].e = GE::Str(["x", "y"][r.below(2) as usize].to_string());
     if r.chance(1, 2) { rules[last - 1].e = GE::Seq(Box::new(GE::Str("x".into())), Box::new(GE::Opt(Box::new(GE::Id(format!("r{}", last)))))); }
-    match r.below(6) {
-        0 => rules.push(GRule { name: "WHITESPACE".into(), ty: Ty::Silent, e: GE::Str(" ".into()) }),
-        1 | 2 => rules.push(GRule { name: "WHITESPACE".into(), ty: [Ty::Normal, Ty::Atomic, Ty::Compound][r.below(3) as usize], e: GE::Str(" ".into()) }),
-        3 => { rules.push(GRule { name: "WHITESPACE".into(), ty: Ty::Normal, e: GE::Str(" ".into()) });
+    match if lines { r.below(4) } else { r.below(6) } {
+        0 => rules.push(GRule { name: "WHITESPACE".into(), ty: Ty::Silent, e: ws() }),
+        1 | 2 => rules.push(GRule { name: "WHITESPACE".into(), ty: [Ty::Normal, Ty::Atomic, Ty::Compound][r.below(3) as usize], e: ws() }),
+        3 => { rules.push(GRule { name: "WHITESPACE".into(), ty: Ty::Normal, e: ws() });
                rules.push(GRule { name: "COMMENT".into(), ty: Ty::Normal, e: GE::Str("yy".into()) }); }
         _ => {}
     }
-    rules
+    (rules, seps)
 }
 
 
@@ -564,7 +628,7 @@ fn gen_c04_grammar(r: &mut Rng) -> Vec<GRule> {
 /// a rule matched; sub-trees come from pvharness::prog::gen (the Layer-C generator) now and then
 fn gen_pp(rng: &mut Rng, d: u32) -> pp::Prog {
     use pp::Prog::*;
-    let lit = |rng: &mut Rng| Str(["a", "b", "ab", "é"][rng.weighted(&[6, 5, 2, 1])].to_string());
+    let lit = |rng: &mut Rng| Str(["a", "b", "ab", "é", "\r\n", "\n"][rng.weighted(&[12, 10, 4, 2, 1, 1])].to_string());
     if d == 0 || rng.chance(1, 7) {
         return match rng.weighted(&[8, 3, 1, 1, 2, 1]) { 0 => lit(rng), 1 => Skip(1), 2 => Ok, 3 => Err, 4 => Rule(rng.below(3) as u32, Box::new(lit(rng))), _ => Tag(rng.below(3) as usize) };
     }
@@ -676,6 +740,8 @@ fn place(f: &mut [T], bounds: &[usize], cur: &mut usize, adv: &mut dyn FnMut() -
 }
 fn boundaries(s: &str) -> Vec<usize> { let mut v: Vec<usize> = s.char_indices().map(|(i, _)| i).collect(); v.push(s.len()); v }
 const INPUT_A: &str = "x\u{e9}y\n\u{4f60}\"x y\u{e9}\nxy\u{4f60}x";
+/// every kind of line break (also two in a row and a position between `\r` and `\n`), multi-byte characters before and after them
+const INPUT_B: &str = "x\r\ny\r\u{e9}\r\n\r\n\u{4f60}\nx\r\n\u{1F388}y\r\nxy";
 
 fn random_forest(rng: &mut Rng, n: usize) -> Vec<T> {
     // random shape by random insertion: each new node becomes the last child of a node on the rightmost path or a new root
@@ -698,6 +764,99 @@ fn random_scripts(rng: &mut Rng, k: usize, maxlen: u64) -> Vec<String> {
         (0..len).map(|_| ['n', 'b', 'l', 'p'][rng.weighted(&ws)]).collect() }).collect()
 }
 
+// ------------------------------------------------------------------------------------------
+// escalated search around one case (mode `neighbors`): used by the driver after the real code differed from the model of
+// the code on a case for which the specification has nothing to say (or agrees); looks for a case nearby on which the
+// real code differs from the specification
+
+/// the forest a builder call sequence describes (a tag goes to the rule before it)
+fn bops_forest(l: &[Bop]) -> Vec<T> {
+    let mut out: Vec<T> = vec![];
+    for o in l {
+        match o {
+            Bop::Rule(r, s, e) => out.push(T { rule: *r, tag: None, s: *s, e: *e, ch: vec![] }),
+            Bop::With(r, s, e, inner) => out.push(T { rule: *r, tag: None, s: *s, e: *e, ch: bops_forest(inner) }),
+            Bop::Tag(t) => if let Some(x) = out.last_mut() { x.tag = Some(*t); },
+        }
+    }
+    out
+}
+fn all_nodes<'a>(f: &'a [T], out: &mut Vec<&'a T>) { for t in f { out.push(t); all_nodes(&t.ch, out); } }
+/// characters of the string literals of a grammar / program text (pest syntax: "..." with \n \r \t \\ \" escapes)
+fn quoted_chars(text: &str, out: &mut Vec<String>) {
+    let mut inq = false; let mut it = text.chars();
+    while let Some(c) = it.next() {
+        if !inq { if c == '"' { inq = true; } continue; }
+        match c {
+            '"' => inq = false,
+            '\\' => match it.next() { Some('n') => out.push("\n".into()), Some('r') => out.push("\r".into()), Some('t') => out.push("\t".into()), Some(x) => out.push(x.to_string()), None => {} },
+            c => out.push(c.to_string()),
+        }
+    }
+}
+/// hex words after `M` / `str` / `ins` in a closure-tree text
+fn hex_literal_chars(text: &str, out: &mut Vec<String>) {
+    let w: Vec<String> = pg_lex(text);
+    for i in 0..w.len() {
+        if (w[i] == "M" || w[i] == "str" || w[i] == "ins") && i + 1 < w.len() && w[i + 1].len() % 2 == 0 && w[i + 1].bytes().all(|b| b.is_ascii_hexdigit()) {
+            if let Ok(b) = catch(|| unhexs(&w[i + 1])) { for c in b.chars() { out.push(c.to_string()); } }
+        }
+    }
+}
+/// one to three edits: replace / insert / delete a character, duplicate a stretch, put a line break in; characters from `alpha`
+fn mutate_text(rng: &mut Rng, s: &str, alpha: &[String]) -> String {
+    let mut cs: Vec<String> = s.chars().map(|c| c.to_string()).collect();
+    // keep \r\n together as one symbol
+    let mut i = 0; while i + 1 < cs.len() { if cs[i] == "\r" && cs[i + 1] == "\n" { cs[i] = "\r\n".into(); cs.remove(i + 1); } i += 1; }
+    let edits = rng.range(1, 3);
+    for _ in 0..edits {
+        let a = alpha[rng.below(alpha.len() as u64) as usize].clone();
+        let pos = rng.below(cs.len() as u64 + 1) as usize;
+        match rng.weighted(&[4, 4, 2, 2, 3]) {
+            0 => if pos < cs.len() { cs[pos] = a; } else { cs.push(a); },
+            1 => cs.insert(pos, a),
+            2 => if pos < cs.len() { cs.remove(pos); },
+            3 => if !cs.is_empty() { let from = rng.below(cs.len() as u64) as usize; let to = (from + rng.range(1, 3) as usize).min(cs.len()); let seg: Vec<String> = cs[from..to].to_vec(); for (k, x) in seg.into_iter().enumerate() { cs.insert(to + k, x); } },
+            _ => cs.insert(pos, ["\r\n", "\n", "\r"][rng.weighted(&[3, 2, 1])].to_string()),
+        }
+    }
+    cs.concat()
+}
+enum PSrc { Vm(Vec<(pest_vm::Vm, Vec<String>)>, usize), Vg(pest_vm::Vm, Vec<String>, String), Pp(pp::Prog), St(Pg) }
+fn psrc(src: &str) -> Option<PSrc> {
+    if let Some(g) = src.strip_prefix("vm:") {
+        let mut vms = vec![];
+        for g in GRAMMARS.iter() { let (_, rules) = pest_meta::parse_and_optimize(g).expect("grammar"); let mut names: Vec<String> = rules.iter().map(|r| r.name.clone()).collect(); names.push("EOI".to_string()); vms.push((pest_vm::Vm::new(rules), names)); }
+        let gi: usize = g.parse().unwrap_or(0);
+        if gi < vms.len() { Some(PSrc::Vm(vms, gi)) } else { None }
+    } else if let Some(hx) = src.strip_prefix("vg:") {
+        let gtext = unhexs(hx);
+        compile(&gtext).map(|(vm, names)| PSrc::Vg(vm, names, gtext))
+    } else if let Some(ps) = src.strip_prefix("pp:") {
+        Some(PSrc::Pp(pp::Prog::parse(ps)))
+    } else if let Some(pg) = src.strip_prefix("st:") {
+        let w = pg_lex(pg); let mut i = 0; Some(PSrc::St(pg_parse(&w, &mut i)))
+    } else { None }
+}
+impl PSrc {
+    fn run(&self, out: &mut Out, d: usize, h: usize, scripts: &[String], input: &str) -> bool {
+        match self {
+            PSrc::Vm(vms, gi) => run_vm_case(out, vms, *gi, d, h, scripts, input),
+            PSrc::Vg(vm, names, gtext) => run_vg_case(out, vm, names, gtext, d, h, input, None),
+            PSrc::Pp(prog) => run_pp_case(out, d, h, scripts, input, prog, &mut 0),
+            PSrc::St(pg) => run_st_case(out, d, h, scripts, input, pg),
+        }
+    }
+    fn literal_chars(&self, out: &mut Vec<String>) {
+        match self {
+            PSrc::Vm(_, gi) => quoted_chars(GRAMMARS[*gi], out),
+            PSrc::Vg(_, _, gtext) => quoted_chars(gtext, out),
+            PSrc::Pp(prog) => hex_literal_chars(&prog.show(), out),
+            PSrc::St(pg) => hex_literal_chars(&pg_str(pg), out),
+        }
+    }
+}
+
 fn main() {
     quiet_panics();
     let mode = arg(1);
@@ -711,10 +870,12 @@ fn main() {
             let d = arg_u64(4, 7) as usize;
             let seed = arg_u64(5, 1);
             let mut rng = Rng::new(seed ^ (n as u64) << 8);
-            let b = boundaries(INPUT_A);
-            for shape in shapes(n) {
+            let bs = [boundaries(INPUT_A), boundaries(INPUT_B)];
+            for (si, shape) in shapes(n).into_iter().enumerate() {
                 let labelings: u64 = if lab == "all" { 1u64 << (2 * n) } else { lab.parse().unwrap_or(1) };
                 for li in 0..labelings {
+                    let which = ((li / 2) as usize + si) % 2;
+                    let (input, b) = ([INPUT_A, INPUT_B][which], &bs[which]);
                     let mut f = shape.clone();
                     let mut k = 0usize;
                     if lab == "all" {
@@ -728,11 +889,11 @@ fn main() {
                     }
                     let mut cur = 0usize;
                     match li % 3 {
-                        0 => place(&mut f, &b, &mut cur, &mut || 1),
-                        1 => { let mut tgl = 0; place(&mut f, &b, &mut cur, &mut || { tgl += 1; if tgl % 3 == 0 { 1 } else { 0 } }) }
-                        _ => place(&mut f, &b, &mut cur, &mut || rng.below(3) as usize),
+                        0 => place(&mut f, b, &mut cur, &mut || 1),
+                        1 => { let mut tgl = 0; place(&mut f, b, &mut cur, &mut || { tgl += 1; if tgl % 3 == 0 { 1 } else { 0 } }) }
+                        _ => place(&mut f, b, &mut cur, &mut || rng.below(3) as usize),
                     }
-                    run_builder_case(&mut out, d, 6, &[], INPUT_A, &f, li % 2 == 0);
+                    run_builder_case(&mut out, d, 6, &[], input, &f, li % 2 == 0);
                 }
             }
         }
@@ -744,8 +905,10 @@ fn main() {
                 let n = rng.range(5, maxn) as usize;
                 let mut f = random_forest(&mut rng, n);
                 relabel(&mut f, &mut || (rng.below(3) as usize, if rng.chance(1, 3) { Some(rng.below(3) as usize) } else { None }));
-                let ilen = rng.range(0, 24);
-                let input: String = (0..ilen).map(|_| ALPHA[rng.below(6) as usize]).collect();
+                // one case in three has many short lines (all line-break kinds) under the whole forest
+                let lines = rng.chance(1, 3);
+                let ilen = if lines { rng.range(n as u64, 3 * n as u64 + 8) } else { rng.range(0, 24) };
+                let input = gen_text(&mut rng, ilen, if lines { 2 } else { 1 });
                 let b = boundaries(&input);
                 let mut cur = 0usize;
                 let dense = rng.below(3);
@@ -758,26 +921,41 @@ fn main() {
         "builder" => {
             let count = arg_u64(2, 100);
             let mut rng = Rng::new(arg_u64(3, 0));
-            fn gen(rng: &mut Rng, d: usize, len: usize, bad: bool) -> Vec<Bop> {
+            // kind 0: any byte offsets, also beyond the input (the documented panics); kind 1: char boundaries with start <= end,
+            // siblings in any order; kind 2: a well-formed tree (ordered nested boundary spans, depth up to 4, tags after rules)
+            fn gen(rng: &mut Rng, d: usize, len: usize, bs: &[usize], kind: u64, cur: &mut usize) -> Vec<Bop> {
                 let n = rng.range(0, 3);
                 let mut v = vec![];
                 for _ in 0..n {
-                    let mut s = rng.below(len as u64 + 1) as usize; let mut e = rng.below(len as u64 + 1) as usize;
-                    if !bad && s > e { std::mem::swap(&mut s, &mut e); }
-                    if bad && rng.chance(1, 8) { e = len + 1 + rng.below(3) as usize; }
+                    if kind == 2 {
+                        *cur = (*cur + rng.below(3) as usize).min(bs.len() - 1); let s = bs[*cur];
+                        let r = rng.below(3) as usize;
+                        let with = rng.chance(1, 2);
+                        let inner = if with && d > 0 { gen(rng, d - 1, len, bs, kind, cur) } else { vec![] };
+                        *cur = (*cur + rng.below(3) as usize).min(bs.len() - 1); let e = bs[*cur];
+                        v.push(if with { Bop::With(r, s, e, inner) } else { Bop::Rule(r, s, e) });
+                        if rng.chance(1, 4) { v.push(Bop::Tag(rng.below(3) as usize)); }
+                        continue;
+                    }
+                    let pick = |rng: &mut Rng| if kind == 1 { bs[rng.below(bs.len() as u64) as usize] } else { rng.below(len as u64 + 1) as usize };
+                    let mut s = pick(rng); let mut e = pick(rng);
+                    if kind == 1 && s > e { std::mem::swap(&mut s, &mut e); }
+                    if kind == 0 && rng.chance(1, 8) { e = len + 1 + rng.below(3) as usize; }
                     match rng.weighted(&[3, 3, 2]) {
                         0 => v.push(Bop::Rule(rng.below(3) as usize, s, e)),
-                        1 => { let inner = if d > 0 { gen(rng, d - 1, len, bad) } else { vec![] }; v.push(Bop::With(rng.below(3) as usize, s, e, inner)); }
+                        1 => { let inner = if d > 0 { gen(rng, d - 1, len, bs, kind, cur) } else { vec![] }; v.push(Bop::With(rng.below(3) as usize, s, e, inner)); }
                         _ => v.push(Bop::Tag(rng.below(3) as usize)),
                     }
                 }
                 v
             }
             for _ in 0..count {
-                let ilen = rng.range(0, 8);
-                let input: String = (0..ilen).map(|_| ALPHA[rng.below(6) as usize]).collect();
-                let bad = rng.chance(1, 2);
-                let ops = gen(&mut rng, 2, input.len(), bad);
+                let ilen = rng.range(0, 10);
+                let prof = 1 + rng.below(2);
+                let input = gen_text(&mut rng, ilen, prof);
+                let kind = rng.below(3);
+                let bs = boundaries(&input);
+                let ops = gen(&mut rng, if kind == 2 { 3 } else { 2 }, input.len(), &bs, kind, &mut 0);
                 run_x_case(&mut out, &input, &ops);
             }
         }
@@ -791,9 +969,9 @@ fn main() {
                 let mut names: Vec<String> = rules.iter().map(|r| r.name.clone()).collect(); names.push("EOI".to_string());
                 vms.push((pest_vm::Vm::new(rules), names));
             }
-            let alpha = ["x", "y", "\u{e9}", "\u{4f60}", "\n", "(", ")"];
             let mut ok = 0u64;
             for gi in 0..GRAMMARS.len() {
+                let (alpha, k): (&[&str], usize) = if gi == 5 { (&VM_ALPHA_LINES, k + 1) } else { (&VM_ALPHA_STD, k) };
                 let mut idx: Vec<usize> = vec![];
                 loop {
                     let input: String = idx.iter().map(|&i| alpha[i]).collect();
@@ -821,8 +999,7 @@ fn main() {
                 tries += 1;
                 let pg = if rng.chance(1, 2) { Pg::Rep(Box::new(gen_pg(&mut rng, 4))) } else { gen_pg(&mut rng, 5) };
                 let ilen = rng.range(0, 7);
-                let wide = rng.chance(1, 4);
-                let input: String = (0..ilen).map(|_| ALPHA[rng.below(if wide { 5 } else { 3 }) as usize]).collect();
+                let input = match rng.below(8) { 0 | 1 => gen_text(&mut rng, ilen, 1), 2 => gen_text(&mut rng, ilen + 3, 2), _ => gen_text(&mut rng, ilen, 0) };
                 let scripts = random_scripts(&mut rng, 2, 16);
                 if run_st_case(&mut out, 3, 2, &scripts, &input, &pg) { produced += 1; }
             }
@@ -833,11 +1010,15 @@ fn main() {
             let mut rng = Rng::new(arg_u64(3, 0));
             let k = arg_u64(4, 5) as usize;
             let inputs = pvharness::gram::all_strings(&["x", "y", " "], k);
+            let mut inputs_sep: std::collections::HashMap<[&'static str; 2], Vec<String>> = std::collections::HashMap::new();
             let mut made = 0u64; let mut tries = 0u64; let mut parses = 0u64; let mut oks = 0u64;
             while made < count && tries < count * 20 {
                 tries += 1;
-                let g = gen_c04_grammar(&mut rng);
+                let (g, seps) = gen_c04_grammar(&mut rng);
                 let gtext = pest_grammar(&g);
+                // grammars whose WHITESPACE accepts line breaks: all inputs over x, y and the two separators, one shorter
+                let inputs: &Vec<String> = if seps[0] == seps[1] { &inputs } else {
+                    inputs_sep.entry(seps).or_insert_with(|| pvharness::gram::all_strings(&["x", "y", seps[0], seps[1]], k.max(2) - 1)) };
                 let (vm, names) = match compile(&gtext) { Some(x) => x, None => continue };
                 made += 1;
                 let mut seen: HashSet<String> = HashSet::new();
@@ -865,7 +1046,11 @@ fn main() {
                     2 => pp::Prog::Rep(Box::new(pp::Prog::Seq(Box::new(pp::Prog::Then(Box::new(pp::Prog::Rule(rng.below(3) as u32, Box::new(pp::Prog::Skip(1)))), g(&mut rng, depth - 1)))))),
                     _ => *g(&mut rng, depth),
                 };
-                let input = pp::gen_input(&mut rng, 6);
+                // one input in four has line breaks of every kind and multi-byte characters between the letters
+                let input = if rng.chance(1, 4) {
+                    let n = rng.range(0, 8);
+                    (0..n).map(|_| ["a", "b", "\u{e9}", "\r\n", "\n", "\r", "\u{1F388}"][rng.weighted(&[5, 4, 2, 3, 2, 1, 1])]).collect()
+                } else { pp::gen_input(&mut rng, 6) };
                 let key = format!("{}|{}", p.show(), input);
                 if !seen.insert(key) { continue; }
                 let scripts = if rng.chance(1, 4) { random_scripts(&mut rng, 1, 12) } else { vec![] };
@@ -890,19 +1075,85 @@ fn main() {
                 "X" => { let w: Vec<&str> = p[5].split_whitespace().collect(); let mut i = 0; let ops = parse_bops(&w, &mut i); run_x_case(&mut out, &input, &ops); }
                 "P" => {
                     let src = p[5].split('#').next().unwrap_or("");
-                    if let Some(g) = src.strip_prefix("vm:") {
-                        let mut vms = vec![];
-                        for g in GRAMMARS.iter() { let (_, rules) = pest_meta::parse_and_optimize(g).expect("grammar"); let mut names: Vec<String> = rules.iter().map(|r| r.name.clone()).collect(); names.push("EOI".to_string()); vms.push((pest_vm::Vm::new(rules), names)); }
-                        run_vm_case(&mut out, &vms, g.parse().unwrap_or(0), d, h, &scripts, &input);
-                    } else if let Some(hx) = src.strip_prefix("vg:") {
-                        let gtext = unhexs(hx);
-                        if let Some((vm, names)) = compile(&gtext) { run_vg_case(&mut out, &vm, &names, &gtext, d, h, &input, None); }
-                    } else if let Some(ps) = src.strip_prefix("pp:") {
-                        let prog = pp::Prog::parse(ps);
-                        run_pp_case(&mut out, d, h, &scripts, &input, &prog, &mut 0);
-                    } else if let Some(pg) = src.strip_prefix("st:") {
-                        let w = pg_lex(pg); let mut i = 0; let prog = pg_parse(&w, &mut i);
-                        run_st_case(&mut out, d, h, &scripts, &input, &prog);
+                    if let Some(ps) = psrc(src) { ps.run(&mut out, d, h, &scripts, &input); }
+                }
+                _ => {}
+            }
+        }
+        // cases near one case: neighbors CASE COUNT SEED.  Builder cases: the forest, its sub-forests and deepened / widened
+        // variants of it, laid out anew over the original text, edited versions of it and fresh texts with every line-break
+        // kind and multi-byte characters (ordered boundary spans, i.e. always inside the specification's domain).  Parse
+        // cases: the same grammar / closure tree on edited inputs (alphabet: the input's characters, the literals of the
+        // grammar or program, all line-break kinds, multi-byte characters).
+        "neighbors" => {
+            let case = arg(2);
+            let count = arg_u64(3, 200);
+            let mut rng = Rng::new(arg_u64(4, 1));
+            let p: Vec<&str> = case.splitn(6, '|').collect();
+            if p.len() < 6 { eprintln!("bad case"); std::process::exit(2); }
+            let d: usize = p[1].parse::<usize>().unwrap_or(3).clamp(2, 4); let h: usize = p[2].parse::<usize>().unwrap_or(1).clamp(1, 2);
+            let scripts: Vec<String> = if p[3].is_empty() { vec![] } else { p[3].split(',').map(|s| s.to_string()).collect() };
+            let input = unesc(p[4]);
+            let mut alpha: Vec<String> = input.chars().map(|c| c.to_string()).collect();
+            match p[0] {
+                "B" | "X" => {
+                    let base: Vec<T> = if p[0] == "B" { let mut i = 0; parse_forest(p[5].as_bytes(), &mut i) }
+                                       else { let w: Vec<&str> = p[5].split_whitespace().collect(); let mut i = 0; bops_forest(&parse_bops(&w, &mut i)) };
+                    for a in ALPHA.iter() { alpha.push(a.to_string()); }
+                    let mut seen: HashSet<String> = HashSet::new();
+                    for _ in 0..count {
+                        let mut f: Vec<T> = base.clone();
+                        let mut ns = vec![]; all_nodes(&base, &mut ns);
+                        match rng.below(5) {
+                            0 => if !ns.is_empty() { let t = ns[rng.below(ns.len() as u64) as usize]; f = vec![t.clone()]; },
+                            1 => if !ns.is_empty() { let t = ns[rng.below(ns.len() as u64) as usize]; f = t.ch.clone(); },
+                            2 => if f.len() > 1 { let k = rng.range(1, f.len() as u64 - 1) as usize; if rng.chance(1, 2) { f.truncate(k); } else { f = f[k..].to_vec(); } },
+                            _ => {}
+                        }
+                        if f.is_empty() { let n = rng.range(1, 6) as usize; f = random_forest(&mut rng, n); relabel(&mut f, &mut || (rng.below(3) as usize, if rng.chance(1, 3) { Some(rng.below(3) as usize) } else { None })); }
+                        // extend: a new level on top, a new last sibling, a new child under the last leaf of the rightmost path
+                        for _ in 0..rng.below(3) {
+                            let leaf = T { rule: rng.below(3) as usize, tag: if rng.chance(1, 4) { Some(rng.below(3) as usize) } else { None }, s: 0, e: 0, ch: vec![] };
+                            match rng.below(3) {
+                                0 => { let mut top = leaf; top.ch = f; f = vec![top]; }
+                                1 => f.push(leaf),
+                                _ => { let mut cur: &mut Vec<T> = &mut f; loop { if cur.is_empty() { break; } let l = cur.len(); if cur[l - 1].ch.is_empty() { cur = &mut cur[l - 1].ch; break; } cur = &mut cur[l - 1].ch; } cur.push(leaf); }
+                            }
+                        }
+                        let n = nodes(&f) as u64;
+                        let text = match rng.below(5) {
+                            0 => input.clone(),
+                            1 => mutate_text(&mut rng, &input, &alpha),
+                            2 | 3 => { let len = rng.range(n, 3 * n + 6); gen_text(&mut rng, len, 2) }
+                            _ => { let len = rng.range(0, 2 * n + 6); gen_text(&mut rng, len, 1) }
+                        };
+                        let b = boundaries(&text);
+                        let mut cur = 0usize;
+                        let dense = rng.below(3);
+                        place(&mut f, &b, &mut cur, &mut || if dense == 0 { rng.below(2) as usize } else { rng.below(3) as usize });
+                        let key = format!("{}|{}", text, forest_str(&f));
+                        if !seen.insert(key) { continue; }
+                        run_builder_case(&mut out, d, h, &scripts, &text, &f, rng.chance(1, 2));
+                    }
+                }
+                "P" => {
+                    let src = p[5].split('#').next().unwrap_or("");
+                    if let Some(ps) = psrc(src) {
+                        ps.literal_chars(&mut alpha);
+                        for a in ["\n", "\r\n", "\r", "\u{e9}", "\u{1F388}", " "].iter() { alpha.push(a.to_string()); }
+                        let mut seen: HashSet<String> = HashSet::new();
+                        seen.insert(input.clone());
+                        let mut pool: Vec<String> = vec![input.clone()];
+                        let mut tries = 0u64; let mut oks = 0u64;
+                        while tries < count {
+                            tries += 1;
+                            // edit the original input or an input that already parsed (walks away from the start by and by)
+                            let from = pool[rng.below(pool.len() as u64) as usize].clone();
+                            let text = if rng.chance(1, 8) { format!("{}{}", from, input) } else { mutate_text(&mut rng, &from, &alpha) };
+                            if text.len() > 64 || !seen.insert(text.clone()) { continue; }
+                            if ps.run(&mut out, d, h, &scripts, &text) { oks += 1; if pool.len() < 64 { pool.push(text); } }
+                        }
+                        writeln!(out.w, "#NEIGHBORS\tinputs_tried={}\tok_parses={}", tries, oks).unwrap();
                     }
                 }
                 _ => {}
@@ -926,7 +1177,7 @@ fn main() {
                 Err(_) => writeln!(out.w, "#PROBE\tfailed=1").unwrap(),
             }
         }
-        _ => { eprintln!("usage: c04 exhaustive N all|K D SEED | random COUNT SEED MAXN | builder COUNT SEED | vm K D | vmgen COUNT SEED K | state COUNT SEED | prog COUNT SEED DEPTH | one CASE | probe"); std::process::exit(2); }
+        _ => { eprintln!("usage: c04 exhaustive N all|K D SEED | random COUNT SEED MAXN | builder COUNT SEED | vm K D | vmgen COUNT SEED K | state COUNT SEED | prog COUNT SEED DEPTH | one CASE | neighbors CASE COUNT SEED | probe"); std::process::exit(2); }
     }
     writeln!(out.w, "#SUMMARY\tevaluations={}\tdistinct_nontrivial={}", out.n, out.nontriv).unwrap();
 }
